@@ -71,8 +71,24 @@ pub fn model_state(m: &UserModel) -> String {
                 rs.push(format!("{}:{}:{}{}", r.r, h, r.hidden as u8, if r.s != 0 { ":styled" } else { "" }));
             }
         }
+        // plain cell contents (empty cells and empty strings are not listed)
+        let mut xs = vec![];
+        let mut keys: Vec<(i32, i32)> = vec![];
+        for (r, data) in &ws.sheet_data {
+            for c in data.keys() {
+                keys.push((*r, *c));
+            }
+        }
+        keys.sort();
+        let sheet_index = wb.worksheets.iter().position(|w| w.sheet_id == ws.sheet_id).unwrap_or(0) as u32;
+        for (r, c) in keys {
+            let t = m.get_cell_content(sheet_index, r, c).unwrap_or_default();
+            if !t.is_empty() {
+                xs.push(format!("{},{}={}", r, c, hex(&t)));
+            }
+        }
         out.push_str(&format!(
-            "S[{},{},{},{},{},{},g{},C{{{}}},R{{{}}}]",
+            "S[{},{},{},{},{},{},g{},C{{{}}},R{{{}}},X{{{}}}]",
             hex(&ws.name),
             ws.sheet_id,
             st,
@@ -81,7 +97,8 @@ pub fn model_state(m: &UserModel) -> String {
             ws.frozen_columns,
             ws.show_grid_lines as u8,
             cs.join(" "),
-            rs.join(" ")
+            rs.join(" "),
+            xs.join(" ")
         ));
     }
     out
@@ -141,6 +158,15 @@ fn apply_tok(m: &mut UserModel<'static>, tok: &str) -> Option<Result<(), String>
         ["ch", s, a, z, v] => m.set_columns_hidden(u(s)?, i(a)?, i(z)?, b(v)?),
         ["rhid", s, a, z, v] => m.set_rows_hidden(u(s)?, i(a)?, i(z)?, b(v)?),
         ["mr", s, r, n, d] => m.move_rows_action(u(s)?, i(r)?, i(n)?, i(d)?),
+        ["mc", s, r, n, d] => m.move_columns_action(u(s)?, i(r)?, i(n)?, i(d)?),
+        ["in", s, r, c, h] => m.set_user_input(u(s)?, i(r)?, i(c)?, &unhex(h)?),
+        ["clr", s, r, c, w, h] => m.range_clear_contents(&ironcalc_base::expressions::types::Area {
+            sheet: u(s)?,
+            row: i(r)?,
+            column: i(c)?,
+            width: i(w)?,
+            height: i(h)?,
+        }),
         _ => return None,
     })
 }
@@ -248,7 +274,7 @@ fn gen_cmd(rng: &mut Rng, sheets: &mut i64, depth: &mut i64) -> String {
             }
         }
     };
-    match rng.below(27) {
+    match rng.below(36) {
         0 | 1 | 2 => {
             *depth -= 1;
             "U".into()
@@ -298,6 +324,23 @@ fn gen_cmd(rng: &mut Rng, sheets: &mut i64, depth: &mut i64) -> String {
             let (a, z) = range(rng, 1048576);
             format!("rhid:{}:{}:{}:{}", sheet(rng, *sheets), a, z, rng.below(2))
         }
+        30..=33 => {
+            // plain typed text (implies no format): valid and off-grid targets
+            let r = *rng.pick(&[1i64, 2, 3, 4, 5, 6, 2, 3, 0, 1048577]);
+            let c = *rng.pick(&[1i64, 2, 3, 4, 1, 2, 0, 16385]);
+            format!("in:{}:{}:{}:{}", sheet(rng, *sheets), r, c, hex(*rng.pick(&["alpha", "beta", "x y", "Total"])))
+        }
+        34..=35 => {
+            let (r, c, w, h) = *rng.pick(&[(1i64, 1i64, 3i64, 3i64), (2, 2, 2, 1), (3, 1, 4, 2), (1, 1, 1, 1), (1048576, 1, 1, 2), (1, 16384, 2, 1), (2, 2, 0, 3), (0, 1, 2, 2), (2, 1, -1, 2)]);
+            format!("clr:{}:{}:{}:{}:{}", sheet(rng, *sheets), r, c, w, h)
+        }
+        27..=29 => {
+            // column moves (both directions, landing zones that may contain hidden columns, off-grid targets)
+            let col = *rng.pick(&[1i64, 2, 3, 4, 5, 6, 8, 0, 16383]);
+            let count = *rng.pick(&[1i64, 1, 2, 3, 0, -1]);
+            let delta = *rng.pick(&[1i64, 2, 3, -1, -2, -3, 0, 4]);
+            format!("mc:{}:{}:{}:{}", sheet(rng, *sheets), col, count, delta)
+        }
         _ => {
             // row moves (both directions, landing zones that may contain hidden rows, off-grid targets)
             let row = *rng.pick(&[1i64, 2, 3, 4, 5, 6, 8, 0, 1048575]);
@@ -333,6 +376,17 @@ pub fn gen_histories(prefix: &str, ctx: &Ctx, sink: &mut dyn FnMut(String)) {
         "rh:0:6:6:50 rhid:0:4:5:1 mr:0:6:1:-1 F U R".to_string(),
         "rhid:0:3:4:1 rh:0:1:2:33 mr:0:1:2:2 U U R R".to_string(),
         "mr:0:1:1:-1 mr:0:0:1:1 mr:0:1048575:1:3 mr:0:2:0:1 mr:0:2:1:0".to_string(),
+        // plain cells: input (with auto-fit of a low row), clear, undo/redo, cells riding on moves
+        format!("in:0:2:1:{} in:0:3:2:{} clr:0:1:1:3:3 U R U U U", h("alpha"), h("beta")),
+        format!("rh:0:2:2:10 in:0:2:1:{} U R F", h("alpha")),
+        format!("in:0:2:1:{} rhid:0:3:3:1 mr:0:2:1:1 U R mc:0:1:1:2 U U", h("alpha")),
+        format!("in:0:1:1:{} newsheet delsheet:0 U U R R", h("Total")),
+        "clr:0:1048576:1:1:2 clr:0:2:2:0:3 clr:7:1:1:1:1".to_string(),
+        // column moves over hidden columns (twin)
+        "cw:0:2:2:40 ch:0:3:3:1 mc:0:2:1:1 U R U".to_string(),
+        "cw:0:6:6:50 ch:0:4:5:1 mc:0:6:1:-1 F U R".to_string(),
+        "ch:0:3:4:1 cw:0:1:2:33 mc:0:1:2:2 U U R R".to_string(),
+        "mc:0:1:1:-1 mc:0:0:1:1 mc:0:16383:1:3 mc:0:2:0:1 mc:0:2:1:0".to_string(),
     ];
     for c in corpus.iter() {
         sink(format!("{prefix} m {c}"));
@@ -359,7 +413,7 @@ macro_rules! model_suite {
         pub fn $fname() -> Suite {
             Suite {
                 name: $sname,
-                rule: "whole histories over the modelled attribute operations (workbook name, timezone, locale, frozen rows/columns, grid lines, tab colour, hide/unhide/rename/new/delete sheet, column widths, row heights, hidden columns/rows, row moves with the hidden-row-adjusted delta; valid and invalid arguments) interleaved with undo/redo/flush, run on the real UserModel + a from_bytes replica fed by apply_external_diffs, and on the Lean model; compared: per command Ok/Err, undo/redo stack depths and queue length (hooks), final modelled state of primary and replica, well-formedness flag; a fixed corpus of the witnesses of the repaired defects first, then seeded random histories (quick 400 x <=30 commands, thorough 6000 x <=80); non-trivial = at least two commands",
+                rule: "whole histories over the modelled attribute operations (workbook name, timezone, locale, frozen rows/columns, grid lines, tab colour, hide/unhide/rename/new/delete sheet, column widths, row heights, hidden columns/rows, row and column moves with the hidden-adjusted effective delta, plain typed text and range_clear_contents; valid and invalid arguments) interleaved with undo/redo/flush, run on the real UserModel + a from_bytes replica fed by apply_external_diffs, and on the Lean model; compared: per command Ok/Err, undo/redo stack depths and queue length (hooks), final modelled state of primary and replica, well-formedness flag; a fixed corpus of the witnesses of the repaired defects first, then seeded random histories (quick 400 x <=30 commands, thorough 6000 x <=80); non-trivial = at least two commands",
                 modelled: true,
                 gen: $gname,
                 eval: eval_model,
